@@ -731,6 +731,28 @@ def gen_history(rng, family):
             else:
                 b.next(g)
         b.full()
+    elif family == "vanish_respawn":
+        # a cached PID vanishes between the listing and its visit (info has to be read), then the
+        # number is used again before the next iteration: the entry must have been dropped
+        b.populate(rng.randrange(2, 5))
+        b.full()
+        pids_now = sorted(p["pid"] for p in b.k.procs)
+        victim = rng.choice(pids_now)
+        g = b.iter(b.attrs(rng.choice(["plain", "plain", "mixed", "pid"])))
+        first = True
+        for _ in range(len(pids_now) + 1):
+            if first:
+                ev = {"k": "exit", "pid": victim}
+                b.k.apply(ev)
+                b.next(g, [ev])
+                first = False
+            else:
+                b.next(g)
+        ev = {"k": "spawn", "p": mk_proc(victim, b.tick())}
+        b.k.apply(ev)
+        b.h.append({"op": "kev", "ev": ev})
+        b.full(b.attrs(rng.choice(["none", "plain"])))
+        b.full()
     elif family == "reuse_flag":
         b.populate(rng.randrange(2, 5))
         b.full()
@@ -831,7 +853,7 @@ def gen_history(rng, family):
     return b.h
 
 
-FAMILIES = ["static", "churn", "vanish_mid", "reuse_flag", "clear", "attrs", "partial", "overlap",
+FAMILIES = ["static", "churn", "vanish_mid", "vanish_respawn", "reuse_flag", "clear", "attrs", "partial", "overlap",
             "pid_exists", "mixed", "long"]
 
 
@@ -889,6 +911,15 @@ def exhaustive_histories(maxlen):
                 for j in range(3):
                     h.append({"op": "next", "g": ngen, "mid": []})
                 ngen += 1
+            elif w == "vanish5name":
+                h.append({"op": "iter", "attrs": ["name"]})
+                h.append({"op": "next", "g": ngen, "mid": [{"k": "exit", "pid": 5}]})
+                h.append({"op": "next", "g": ngen, "mid": []})
+                h.append({"op": "next", "g": ngen, "mid": []})
+                ngen += 1
+            elif w == "spawn5":
+                start += 1
+                h.append(spawn(5, start))
             elif w == "half":
                 h.append({"op": "iter", "attrs": None})
                 h.append({"op": "next", "g": ngen, "mid": []})
@@ -902,10 +933,10 @@ def exhaustive_histories(maxlen):
                 h.append({"op": "is_running", "at": last_yield5})
         return h
     del counter
-    alphabet = ["reuse5", "exit5", "full", "fullppid", "half", "resume", "clear", "isrun"]
+    alphabet = ["reuse5", "exit5", "spawn5", "full", "fullppid", "vanish5name", "half", "resume", "clear", "isrun"]
     for n in range(1, maxlen + 1):
         for word in itertools.product(alphabet, repeat=n):
-            if "full" in word or "half" in word or "fullppid" in word:
+            if "full" in word or "half" in word or "fullppid" in word or "vanish5name" in word:
                 yield list(word), expand(word)
 
 
@@ -1078,7 +1109,7 @@ def correspond(ctx, res):
     impl = Impl(ctx)
     try:
         res.rule = ("histories of kernel events and pids/pid_exists/process_iter/next/close/cache_clear/"
-                    "is_running ops from 11 clause-directed families (PRNG from VERIF_SEED), the lead witnesses, "
+                    "is_running ops from 12 clause-directed families (PRNG from VERIF_SEED), the lead witnesses, "
                     "an exhaustive sweep of short macro-step words around one recycled PID, the complete "
                     "pid_exists table (every kind of id × every boundary argument) and byte-level directory "
                     "listings; non-trivial = an object is yielded again / a PID gets a new object / generators "
@@ -1091,7 +1122,7 @@ def correspond(ctx, res):
         for h in pid_exists_table():
             hists.append(h)
             tags.append("pid_exists_table")
-        n = ctx.n(660, 44000)
+        n = ctx.n(720, 48000)
         for i in range(n):
             fam = FAMILIES[i % len(FAMILIES)]
             hists.append(gen_history(ctx.rng, fam))
@@ -1109,7 +1140,7 @@ def correspond(ctx, res):
             total_lines += check_batch(ctx, impl, res, hists[a:a + CH], tags[a:a + CH],
                                        sample_idx=(0, 2, 9, 12) if a == 0 else ())
         res.exhaustive = ("all %d words of length <= %d over the macro alphabet {reuse PID 5, exit 5, full iteration, "
-                          "full iteration with attrs=['ppid'], start+1 next, resume 2 nexts, cache_clear, "
+                          "spawn 5, full iteration with attrs=['ppid'], iteration with attrs=['name'] during which 5 exits, start+1 next, resume 2 nexts, cache_clear, "
                           "is_running on the last object yielded for PID 5} containing an iteration; the complete "
                           "pid_exists table; the random families are samples" % (len(hists) - n_rand, maxlen))
         total_lines += listing_cases(ctx, impl, res)
